@@ -546,7 +546,7 @@ def value_eq(it, a, b):
 
 @model('PartialEq::eq')
 def m_eq(it, argv, text):
-    if 'Path' in text.split(' as ')[0] and 'OsStr' not in text.split(' as ')[0]:
+    if base_type(_self_ty(text) or '') in ('Path', 'PathBuf'):
         return path_eq(it, it.as_str(argv[0]).b, it.as_str(argv[1]).b)
     return value_eq(it, argv[0], argv[1])
 
@@ -960,8 +960,7 @@ def m_last(it, argv, text):
     return some(refs[-1]) if refs else NONE
 
 
-@model('slice::iter', 'Vec::iter', '<&Vec as IntoIterator>::into_iter', '<&[] as IntoIterator>::into_iter',
-       '<slice as IntoIterator>::into_iter')
+@model('slice::iter', 'Vec::iter')
 def m_slice_iter(it, argv, text):
     return IterV('list', (tuple(it.seq_elem_refs(argv[0])), 0))
 
